@@ -116,6 +116,7 @@ def for_special(I, it, st, env):
     def run_body(I2, key):
         e2 = Env(env.module, env, env.funcdef, env.frame_id)
         tmp = SDict()
+        I2.heap_log.append(("alloc-dict", id(tmp), None, "<for-each-insert>"))
         e2.vars[target] = tmp
         bind(e2, key)
         I2.exec_block(st.body, e2)
